@@ -342,6 +342,7 @@ def apply_edit(mod, kind, target=None, clash_ns=None):
         m.extra_aug.append(target); f = ("amend", 5, target)
     elif kind == "augment-prefix":
         m.extra_top += " augment /nosuchpfx:c { leaf ba_%s { type string; } }" % m.name
+        m.extra_aug.append("nosuchpfx")          # the statement exists (dependency-set shape) although its target does not resolve
         f = ("impl", 7)
     elif kind == "deviation-node":
         m.extra_top += " deviation /%s:c/%s:nosuch { deviate not-supported; }" % (target, target)
